@@ -365,14 +365,13 @@ class SymArray:
                 return int(v)
             if isinstance(v, float):
                 if v != v or v in (inf, -inf):
-                    # numpy: undefined/implementation-defined; keep a recognisable poison
-                    return int(_np.array(v).astype(self.dtype)) if False else -2 ** 63
+                    return self._nan_as_int()
                 return self._wrapc(int(v))
             if isinstance(v, SF):
                 c = as_const(v)
                 if c is not None:
                     return self._cast(c)
-                return sc.sym_trunc_int(v, strict=False)
+                return sc.sym_trunc_int(v, strict=False, nan_value=self._nan_as_int())
             if isinstance(v, SB):
                 return SI.lift(v)
             if isinstance(v, int):
@@ -383,6 +382,15 @@ class SymArray:
                 return v
             return mkbool(bt(v))
         return v
+
+    def _nan_as_int(self):
+        """NaN / inf cast to an integer dtype on this platform (x86-64): INT64_MIN truncated to the dtype's width"""
+        bits = self.dtype.itemsize * 8
+        if bits >= 64:
+            return -2 ** 63 if self.dtype.kind == 'i' else 2 ** 63
+        if bits == 32:
+            return -2 ** 31 if self.dtype.kind == 'i' else 0
+        return 0
 
     def _wrapc(self, v):
         bits = self.dtype.itemsize * 8
@@ -1171,7 +1179,7 @@ def asarray(x, dtype=None, **kw):
     if hasattr(x, 'compute') and hasattr(x, 'numblocks'):
         return asarray(x.compute(), dtype)     # np.asarray(dask array) computes it
     if isinstance(x, _np.ndarray):
-        a = SymArray.from_list([_unnp(v) for v in x.ravel().tolist()] if x.dtype != object else list(x.ravel()), x.shape, x.dtype if x.dtype != object else _infer_dtype(list(x.ravel())))
+        a = SymArray.from_list(x.ravel().tolist() if x.dtype != object else list(x.ravel()), x.shape, x.dtype if x.dtype != object else _infer_dtype(list(x.ravel())))
         return a if dtype is None else a.astype(dtype)
     if isinstance(x, (list, tuple, range)) or isinstance(x, types.GeneratorType):
         x = list(x)
@@ -1738,6 +1746,11 @@ def concatenate(arrs, axis=0, **kw):
         return SymArray.from_list(vals, (len(vals),), dt, cast=True)
     nd = arrs[0].ndim
     axis = axis if axis >= 0 else axis + nd
+    if nd == 1 and _bi.all(a.dtype == dt for a in arrs):
+        vals = []
+        for a in arrs:
+            vals.extend(a.flat_values())
+        return SymArray.from_list(vals, (len(vals),), dt)
     # build via index arithmetic on a combined buffer
     buf = []
     idxs = []
@@ -2013,6 +2026,9 @@ class _Random:
         self._rs = _np.random.RandomState(int(s) if s is not None else None)
 
     def permutation(self, n):
+        if isinstance(n, SymArray):
+            self.calls.append(('permutation', 'array[%d]' % n.size))
+            return asarray(self._rs.permutation(n.to_numpy()))
         self.calls.append(('permutation', n))
         return asarray(self._rs.permutation(int(n)))
 
